@@ -108,6 +108,19 @@ func runC15(env *core.Env) {
 	chainRoot := fx3.Store()
 	chainKey := core.CanonLog(chainRoot.Log())
 	fromChain := func(n *Node) bool { return core.CanonLog(rootOfNode(n).Log()) == chainKey }
+	// a third root: epics D <- E (E depends on D) with one task each, plus two unfiled tasks; only edges are added here
+	// (every acyclic task graph on the four tasks is reachable that way), under every epic-edge configuration, so
+	// cycles whose inherited wait sits between two unfiled endpoints are covered
+	fx4 := NewFix(env, w0)
+	d4, e4 := fx4.NewEpic("D"), fx4.NewEpic("E")
+	fx4.NewTask(map[string]interface{}{"title": "y", "epic": d4})
+	fx4.NewTask(map[string]interface{}{"title": "x", "epic": e4})
+	fx4.NewTask(map[string]interface{}{"title": "p"})
+	fx4.NewTask(map[string]interface{}{"title": "q"})
+	fx4.Must(core.R("", "sequence", d4, e4))
+	mixRoot := fx4.Store()
+	mixKey := core.CanonLog(mixRoot.Log())
+	fromMix := func(n *Node) bool { return core.CanonLog(rootOfNode(n).Log()) == mixKey }
 	maxTasks := 2
 	if env.Thorough() {
 		maxTasks = 3
@@ -125,6 +138,24 @@ func runC15(env *core.Env) {
 			epics = append(epics, e.ID)
 		}
 		var out []core.Req
+		if fromMix(n) {
+			for _, a := range tasks {
+				for _, b := range tasks {
+					if a != b {
+						out = append(out, core.R("", "--json", "sequence", a, b))
+					}
+				}
+			}
+			out = append(out, core.R("", "--json", "sequence", d4, e4), core.R("", "--json", "sequence", e4, d4), core.R("", "--json", "sequence", "rm", d4, e4), core.R("", "--json", "sequence", "rm", e4, d4))
+			if env.Thorough() {
+				for _, t := range tasks {
+					for _, e := range []string{d4, e4, ""} {
+						out = append(out, core.R("", "--json", "set", t).In(jsonStr(map[string]string{"epic": e})))
+					}
+				}
+			}
+			return out
+		}
 		limit := maxTasks
 		if fromChain(n) {
 			if n.Depth >= 3 {
@@ -165,7 +196,7 @@ func runC15(env *core.Env) {
 	}
 	var checked, progressStates, stuck, cyclic int64
 	samples := &sampleSet{max: 8}
-	b := &BFS{Env: env, Roots: []core.Store{root, chainRoot}, KeyFn: graphKey, Ops: gen, MaxStates: 150000}
+	b := &BFS{Env: env, Roots: []core.Store{root, chainRoot, mixRoot}, KeyFn: graphKey, Ops: gen, MaxStates: 150000}
 	b.Conf = newConformer(100, 300)
 	b.OnState = func(w *core.Worker, n *Node) {
 		obs := n.Aux.(core.Obs)
@@ -252,6 +283,7 @@ func runC15(env *core.Env) {
 		"states_where_progress_is_required": progressStates, "stuck_states": stuck, "states_with_waits_for_cycle": cyclic,
 		"unconfirmed_candidates": unconfirmed.Load(),
 		"second_root":            "epics D<-E<-F with a task in D and in F, <=3 tasks, depth 3",
+		"third_root":             "epics D<-E with one task each + two unfiled tasks: every task edge added in every order (all acyclic task graphs on 4 tasks) x epic edge {D<-E, E<-D, none}, to fixpoint (thorough: also epic moves)",
 		"bound":                  fmt.Sprintf("2 epics (thorough: +1 via plan), <=%d tasks; new task (root/in epic), set epic, sequence and sequence rm on every task pair and epic pair, done/todo, prune, plan; BFS to fixpoint on the canonical graph", maxTasks),
 	}, []string{"state key = canonical labelled graph"})
 	_, _ = e1, e2
